@@ -314,24 +314,32 @@ func TestC14(t *testing.T) {
 				}
 			}
 			files := map[string]string{}
+			// where the action lives and how the step spells it: the repository root ("./"), one level,
+			// several levels; with or without a trailing slash; action.yml or action.yaml
+			dir := rapid.SampledFrom([]string{"act/", "", "sub/dir/act/", ".github/actions/x/"}).Draw(rt, "dir")
+			spec := "./" + strings.TrimSuffix(dir, "/")
+			if dir != "" && rapid.IntRange(0, 3).Draw(rt, "slash") == 0 {
+				spec += "/"
+			}
+			metaName := rapid.SampledFrom([]string{"action.yml", "action.yml", "action.yaml"}).Draw(rt, "metaName")
 			switch using {
 			case "node20":
 				meta.WriteString("runs:\n  using: node20\n  main: index.js\n")
-				files["act/index.js"] = ""
+				files[dir+"index.js"] = ""
 			case "docker":
 				meta.WriteString("runs:\n  using: docker\n  image: Dockerfile\n")
-				files["act/Dockerfile"] = "FROM alpine\n"
+				files[dir+"Dockerfile"] = "FROM alpine\n"
 			default:
 				meta.WriteString("runs:\n  using: composite\n  steps:\n    - run: echo\n      shell: bash\n      id: x\n")
 			}
-			files["act/action.yml"] = meta.String()
+			files[dir+metaName] = meta.String()
 			y := &ybuf{}
 			y.ln("on: push")
 			y.ln("jobs:")
 			y.ln("  a:")
 			y.ln("    runs-on: ubuntu-latest")
 			y.ln("    steps:")
-			exp := g.actionCallSite(y, "./act", inputs, outs, false, false)
+			exp := g.actionCallSite(y, spec, inputs, outs, false, false)
 			sort.Strings(exp)
 			files[".github/workflows/w.yml"] = y.b.String()
 			c := &c14Case{Files: files, Caller: ".github/workflows/w.yml", Expect: exp, Kind: "local-action"}
@@ -340,6 +348,7 @@ func TestC14(t *testing.T) {
 				r.NT(c14Show(c))
 			}
 			r.Class("local-action/" + using)
+			r.Class("local-action/spec:" + spec)
 			for _, e := range exp {
 				r.Class("local-action/expected:" + strings.SplitN(e, "|", 3)[1])
 			}
